@@ -111,6 +111,9 @@ type gen struct {
 	closureMap map[string]*ssa.MakeClosure
 	boxed    map[string]Val
 	lastNextKey string
+	rangeComps  []string               // ghost visited-set components of the map range loops, in encounter order
+	rangeComp   map[*ssa.Range]string
+	rangeDom0   map[*ssa.Range]string  // key set of the ranged map when the loop started
 	nilSeen  map[string][]*ssa.BasicBlock
 	volatile map[string]bool // refs of cells captured by spawned goroutines
 	materialised map[string]string // interior location → object it was materialised as
@@ -186,9 +189,44 @@ func (g *gen) havocAll(st State) {
 		if c == "alloctop" || c == epochKey {
 			continue
 		}
+		if strings.HasPrefix(c, "ghost_") && (g.cs.GhostConst[strings.TrimPrefix(c, "ghost_")] || g.ghostPrivate(strings.TrimPrefix(c, "ghost_"))) {
+			continue
+		}
 		g.havocComp(st, c)
 	}
 	g.havocComp(st, epochKey)
+}
+
+// ghostPrivate: the ghost variable is assigned (`set`) or listed in a modifies clause by the contract of the
+// function under verification only — no callee, however broad its frame (`modifies *`), can change it, since a
+// ghost variable changes only through a `set` clause or a contract that names it.
+func (g *gen) ghostPrivate(name string) bool {
+	if g.fc == nil {
+		return false
+	}
+	mine := false
+	for _, fc := range g.cs.Funcs {
+		mentions := false
+		for _, m := range fc.Modifies {
+			if m == name {
+				mentions = true
+			}
+		}
+		for _, gs := range fc.GhostSets {
+			if gs.Name == name {
+				mentions = true
+			}
+		}
+		if !mentions {
+			continue
+		}
+		if fc == g.fc {
+			mine = true
+		} else {
+			return false
+		}
+	}
+	return mine
 }
 
 var debugOld = os.Getenv("GOVC_DEBUG") == "old"
